@@ -62,6 +62,9 @@ func atCall(name string, k int, cond bool) bool     { return true }
 func callOrder(a string, i int, b string, j int) bool { return true }
 func callResult[T any](name string, k int) T         { var z T; return z }
 func isType[T any](x any) bool                       { _, ok := x.(T); return ok }
+func fnIs(f any, key string) bool                    { return true }
+func capturedVar[T any](key string, name string, f any) T { var z T; return z }
+func atHead[T any](x T) T                            { return x }
 func fresh(x any) bool                               { return true }
 func seen[K comparable](k K) bool                    { return true }
 func forallKeys[K comparable, V any](m map[K]V, f func(K) bool) bool {
@@ -591,10 +594,13 @@ func lemma_parseFrame_trans(p *Parser) {
 
 // ---- interceptor chains (C04) ----
 
+// Installing an interceptor wraps the chain built so far: the new statement function is the wrapper literal, closed
+// over exactly this interceptor and the previous statement function.
 //@ func (p *Parser) useStatementInterceptor
 //@   props C04 C14
 //@   funcvar interceptor passthrough
 //@   modifies p.statementParseFn
+//@   ensures [wraps@C04] fnIs(p.statementParseFn, "parser.(*Parser).useStatementInterceptor$1") && eq(capturedVar[func(*Parser) ast.Statement]("parser.(*Parser).useStatementInterceptor$1", "next", p.statementParseFn), old(p.statementParseFn)) && eq(capturedVar[Interceptor[ast.Statement]]("parser.(*Parser).useStatementInterceptor$1", "interceptor", p.statementParseFn), interceptor)
 
 // The wrapper calls the interceptor exactly once, handing it a thunk that calls the rest of the chain exactly once on
 // the same parser, and returns what the interceptor returns.
@@ -612,6 +618,7 @@ func lemma_parseFrame_trans(p *Parser) {
 //@   props C04 C14
 //@   funcvar interceptor passthrough
 //@   modifies p.expressionParseFn
+//@   ensures [wraps@C04] fnIs(p.expressionParseFn, "parser.(*Parser).useExpressionInterceptor$1") && eq(capturedVar[func(*Parser, int) ast.Expression]("parser.(*Parser).useExpressionInterceptor$1", "next", p.expressionParseFn), old(p.expressionParseFn)) && eq(capturedVar[Interceptor[ast.Expression]]("parser.(*Parser).useExpressionInterceptor$1", "interceptor", p.expressionParseFn), interceptor)
 
 // The expression wrapper additionally publishes the binding power of the step in currentExpressionPrecedence while the
 // interceptor runs and restores the previous value on every exit.
@@ -713,9 +720,13 @@ func tablesSeeded(p *Parser) bool {
 //@   props C04 C05 C11 C13 C14 C16
 //@   requires [lexer] l != nil && lexer.LexInv(l)
 //@   modifies l.position, l.readPosition, l.CurrentChar, l.Line, l.Column, l.hadNewlineBefore, l.leadingComments
+//@   loop 1 before [order.start@C04] i == len(opts.stmtInterceptors)-1
+//@   loop 1 each [order@C04] ncalls("(*Parser).useStatementInterceptor") == 1 && callArg[*Parser]("(*Parser).useStatementInterceptor", 0, 0) == p && eq(callArg[Interceptor[ast.Statement]]("(*Parser).useStatementInterceptor", 0, 1), opts.stmtInterceptors[atHead(i)]) && i == atHead(i)-1
 //@   loop 1 invariant [idx] -1 <= i && i < len(opts.stmtInterceptors)
 //@   loop 1 invariant [state] p != nil && fresh(p) && p.lexer == l && lexer.LexInv(l) && p.prefixParseFns != nil && p.infixParseFns != nil && p.precedences != nil && fresh(p.precedences) && fresh(p.prefixParseFns) && fresh(p.infixParseFns) && len(p.contextStack) == 1 && p.contextStack[0] == GlobalContext && len(p.errors) == 0 && p.currentExpressionPrecedence == 0 && p.tolerantMode == opts.tolerantMode && p.smartSemicolons == opts.smartSemicolons
 //@   loop 1 invariant [builtin.levels] forallKeys(precedences, func(t token.Type) bool { return has(p.precedences, t) && p.precedences[t] == precedences[t] }) && forallKeys(p.precedences, func(t token.Type) bool { return has(precedences, t) })
+//@   loop 2 before [order.start@C04] i == len(opts.expInterceptors)-1
+//@   loop 2 each [order@C04] ncalls("(*Parser).useExpressionInterceptor") == 1 && callArg[*Parser]("(*Parser).useExpressionInterceptor", 0, 0) == p && eq(callArg[Interceptor[ast.Expression]]("(*Parser).useExpressionInterceptor", 0, 1), opts.expInterceptors[atHead(i)]) && i == atHead(i)-1
 //@   loop 2 invariant [idx] -1 <= i && i < len(opts.expInterceptors)
 //@   loop 2 invariant [state] p != nil && fresh(p) && p.lexer == l && lexer.LexInv(l) && p.prefixParseFns != nil && p.infixParseFns != nil && p.precedences != nil && fresh(p.precedences) && fresh(p.prefixParseFns) && fresh(p.infixParseFns) && len(p.contextStack) == 1 && p.contextStack[0] == GlobalContext && len(p.errors) == 0 && p.currentExpressionPrecedence == 0 && p.tolerantMode == opts.tolerantMode && p.smartSemicolons == opts.smartSemicolons
 //@   loop 2 invariant [builtin.levels] forallKeys(precedences, func(t token.Type) bool { return has(p.precedences, t) && p.precedences[t] == precedences[t] }) && forallKeys(p.precedences, func(t token.Type) bool { return has(precedences, t) })
